@@ -18,6 +18,7 @@ type minfo struct {
 	locked   []string // shared fields accessed after the function took the lock
 	calls    []string // client methods / package functions (receiving the client) it calls (a locking function: after it took the lock)
 	pre      []string // the same, called by a locking function before it takes the lock
+	loops    []string // callees that are called inside a loop (possibly many times in one execution)
 	public   bool
 }
 
@@ -140,8 +141,9 @@ func lockSummary(dir string) []minfo {
 			hasDefer := false
 			seen := map[string]bool{}
 			add := func(l *[]string, s string) {
-				if !seen[fd.Name.Name+"/"+fmt.Sprint(l == &m.unlocked)+s] {
-					seen[fd.Name.Name+"/"+fmt.Sprint(l == &m.unlocked)+s] = true
+				key := fmt.Sprintf("%p/%s", l, s)
+				if !seen[key] {
+					seen[key] = true
 					*l = append(*l, s)
 				}
 			}
@@ -162,7 +164,25 @@ func lockSummary(dir string) []minfo {
 				return ok && cvars[id.Name]
 			}
 			pending := []string{}
+			// the source ranges of the loop bodies of this function: a call inside one may happen many times
+			type span struct{ lo, hi token.Pos }
+			loopSpans := []span{}
+			ast.Inspect(fd.Body, func(n ast.Node) bool {
+				switch x := n.(type) {
+				case *ast.ForStmt:
+					loopSpans = append(loopSpans, span{x.Pos(), x.End()})
+				case *ast.RangeStmt:
+					loopSpans = append(loopSpans, span{x.Pos(), x.End()})
+				}
+				return true
+			})
+			curPos := token.NoPos
 			addCall := func(name string) {
+				for _, sp := range loopSpans {
+					if curPos >= sp.lo && curPos < sp.hi {
+						add(&m.loops, name)
+					}
+				}
 				if m.locks {
 					add(&m.calls, name)
 				} else {
@@ -200,6 +220,7 @@ func lockSummary(dir string) []minfo {
 						}
 					}
 				case *ast.CallExpr:
+					curPos = x.Pos()
 					if sel, ok := x.Fun.(*ast.SelectorExpr); ok {
 						if id, ok := sel.X.(*ast.Ident); ok && cvars[id.Name] && (methods[sel.Sel.Name] || !fields[sel.Sel.Name] && sel.Sel.Name != "mu") {
 							if methods[sel.Sel.Name] || ast.IsExported(sel.Sel.Name) {
@@ -237,7 +258,7 @@ func writeLocks(repo, out string) {
 	b.WriteString("(* GENERATED by /verif/translator from the Go sources; do not edit. *)\n")
 	b.WriteString("From Coq Require Import List.\nFrom Coq Require Import Strings.Byte Strings.String.\n")
 	b.WriteString("From Minidyn Require Import Base.Str.\nImport ListNotations.\n\n")
-	b.WriteString("Record minfo := { m_name : str; m_public : bool; m_locks : bool; m_unlocked : list str; m_locked : list str; m_pre : list str; m_calls : list str }.\n\n")
+	b.WriteString("Record minfo := { m_name : str; m_public : bool; m_locks : bool; m_unlocked : list str; m_locked : list str; m_pre : list str; m_calls : list str; m_loops : list str }.\n\n")
 	strs := func(l []string) string {
 		x := []string{}
 		for _, s := range l {
@@ -249,8 +270,8 @@ func writeLocks(repo, out string) {
 		ms := lockSummary(filepath.Join(repo, "aws-"+v, "client"))
 		items := []string{}
 		for _, m := range ms {
-			items = append(items, fmt.Sprintf("{| m_name := %s; m_public := %v; m_locks := %v; m_unlocked := %s; m_locked := %s; m_pre := %s; m_calls := %s |}",
-				coqStr(m.name), m.public, m.locks, strs(m.unlocked), strs(m.locked), strs(m.pre), strs(m.calls)))
+			items = append(items, fmt.Sprintf("{| m_name := %s; m_public := %v; m_locks := %v; m_unlocked := %s; m_locked := %s; m_pre := %s; m_calls := %s; m_loops := %s |}",
+				coqStr(m.name), m.public, m.locks, strs(m.unlocked), strs(m.locked), strs(m.pre), strs(m.calls), strs(m.loops)))
 		}
 		fmt.Fprintf(&b, "Definition lock_table_%s : list minfo :=\n  [%s].\n\n", v, strings.Join(items, ";\n   "))
 	}
